@@ -612,7 +612,7 @@ func GenCase(prop string, seed uint64, thorough bool) *Case {
 	case "C16":
 		p.wWrite, p.wGet, p.wIter, p.wCompact, p.wReopen = 50, 30, 8, 4, 8
 		if c.Knobs.FilterBits == 0 {
-			c.Knobs.FilterBits = r.pick(1, 2, 10, 64)
+			c.Knobs.FilterBits = r.pick(1, 2, 10, 64, -1)
 		}
 		c.Knobs.FilterBaseLg = r.pick(0, 4, 5, 8, 11, 14)
 		c.Knobs.BlockSize = r.pick(64, 128, 256)
@@ -656,10 +656,11 @@ func GenCase(prop string, seed uint64, thorough bool) *Case {
 		for i := range ops {
 			if ops[i].K == "reopen" || ops[i].K == "setro" {
 				k := c.Knobs
-				k.FilterBits = r.pick(0, 1, 4, 10, 64)
+				k.FilterBits = r.pick(0, 1, 4, 10, 64, -1, -1)
 				k.FilterBaseLg = r.pick(0, 4, 5, 8, 11, 14)
 				if r.p(0.5) {
-					k.AltFilterBits = []int{10}
+					// policies (by name) that older tables may have been written under
+					k.AltFilterBits = [][]int{{10}, {-1}, {10, -1}, {-1, 10}}[r.intn(4)]
 				}
 				ops[i].Knob = &k
 			}
